@@ -4,6 +4,7 @@ Property theorems; the model is `Model/FileSystem.lean`, the invariant `Inv`/`Fo
 preservation lemmas are in `Lemmas/FileSystem{Basics,Folder,State,Ops}.lean`.
 -/
 import PrimaiteModel.Lemmas.FileSystemDescribe
+import PrimaiteModel.Lemmas.FileSystemKeeps
 import PrimaiteModel.Lemmas.FileSystemSnapshot
 import PrimaiteModel.Gen.FileSystem
 namespace Primaite.FileSystem
@@ -553,6 +554,160 @@ theorem C15_deleted_file_unavailable {s : State} (h : Inv s) {g : Folder} {x : N
 example : ∃ s g, Inv s ∧ g ∈ s.folders ∧ g.name = "fa" ∧ (∃ f ∈ g.deletedFiles, f.name = "a") ∧ ∀ f ∈ g.files, f.name ≠ "a" :=
   ⟨(run (init none) [.createFile "fa" "a" false, .deleteFile "fa" "a"]).1, _, C15_inv_reachable _ _,
     List.mem_cons_of_mem _ (List.mem_cons_self ..), by decide, by decide, by decide⟩
+
+/-! ### deleting moves an item to the deleted set, restoring moves it back -/
+
+/-- `delete/file` on a live file: answered `success`; afterwards the file (same uuid) is in the folder's
+`deleted_files` with its flag set and no longer in `files`; every other file of the folder stays where it was. -/
+theorem C15_delete_file_moves {s : State} (h : Inv s) {g : Folder} {f : File} (hg : g ∈ s.folders) (hf : f ∈ g.files) :
+    (step s (.deleteFile g.name f.name)).2 = .success ∧
+    ∃ g' ∈ (step s (.deleteFile g.name f.name)).1.folders, g'.id = g.id ∧
+      f.delete ∈ g'.deletedFiles ∧ (∀ a ∈ g'.files, a.id ≠ f.id) ∧
+      (∀ a ∈ g.files, a.id ≠ f.id → a ∈ g'.files) ∧ (∀ b ∈ g.deletedFiles, b ∈ g'.deletedFiles) := by
+  have gi := (h.folder g (Or.inl hg)).1
+  have hgf := getFolder_of_live h hg
+  have hff := getFile_of_live gi hf
+  have hlook : getFile s g.name f.name = some f := by unfold getFile; rw [hgf]; exact hff
+  have hany : g.files.any (fun y => y.id == f.id) = true := by
+    simp only [List.any_eq_true, beq_iff_eq]; exact ⟨f, hf, rfl⟩
+  simp only [step, deleteFile, hlook, Option.isNone_some, Bool.false_eq_true, if_false, hgf, hff]
+  refine ⟨trivial, g.removeFile f, ?_, ?_, ?_, ?_, ?_, ?_⟩
+  · simp only [updFolder]
+    exact List.mem_map.mpr ⟨g, hg, by simp⟩
+  · unfold Folder.removeFile; rw [if_pos hany]
+  · unfold Folder.removeFile; rw [if_pos hany]
+    exact (mem_dictSet File.id).mpr (Or.inl rfl)
+  · unfold Folder.removeFile; rw [if_pos hany]
+    intro a ha
+    exact ((mem_dictPop File.id).mp ha).2
+  · unfold Folder.removeFile; rw [if_pos hany]
+    intro a ha hne
+    exact (mem_dictPop File.id).mpr ⟨ha, hne⟩
+  · unfold Folder.removeFile; rw [if_pos hany]
+    intro b hb
+    exact (mem_dictSet File.id).mpr (Or.inr ⟨hb, fun e => gi.disjoint f hf b hb e.symm⟩)
+
+/-- `restore/file` on a name with no live file but a deleted one: answered `success`; afterwards that file (the oldest
+deleted one of that name, same uuid) is in `files` with its flag cleared and no longer in `deleted_files`. -/
+theorem C15_restore_file_moves {s : State} (h : Inv s) {g : Folder} {f : File} {x : Name} (hg : g ∈ s.folders)
+    (hno : ∀ a ∈ g.files, a.name ≠ x) (hf : g.getFile x true = some f) :
+    f ∈ g.deletedFiles ∧ (step s (.restoreFile g.name x)).2 = .success ∧
+    ∃ g' ∈ (step s (.restoreFile g.name x)).1.folders, g'.id = g.id ∧
+      f.restore ∈ g'.files ∧ f.restore.deleted = false ∧ (∀ b ∈ g'.deletedFiles, b.id ≠ f.id) ∧
+      (∀ a ∈ g.files, a ∈ g'.files) := by
+  have gi := (h.folder g (Or.inl hg)).1
+  have hgf := getFolder_of_live h hg
+  obtain ⟨hfn, hcase⟩ := getFile_incl hf
+  have hfd : f ∈ g.deletedFiles := by
+    rcases hcase with hl | ⟨hd, _⟩
+    · exact absurd hfn (hno f hl)
+    · exact hd
+  have hrf : (g.restoreFile x).1.files = dictSet File.id g.files f.restore ∧
+      (g.restoreFile x).1.deletedFiles = dictPop File.id g.deletedFiles f.id ∧ (g.restoreFile x).2 = true := by
+    unfold Folder.restoreFile; rw [hf]; exact ⟨rfl, rfl, rfl⟩
+  refine ⟨hfd, ?_, ?_⟩
+  · simp [step, restoreFile, hgf, hf, hrf.2.2, ofBool]
+  · simp only [step, restoreFile, hgf, hf]
+    refine ⟨(g.restoreFile x).1, ?_, (restoreFile_meta g x).1, ?_⟩
+    · simp only [updFolder]
+      exact List.mem_map.mpr ⟨g, hg, by simp⟩
+    · rw [hrf.1, hrf.2.1]
+      refine ⟨(mem_dictSet File.id).mpr (Or.inl rfl), rfl, ?_, ?_⟩
+      · intro b hb; exact ((mem_dictPop File.id).mp hb).2
+      · intro a ha
+        exact (mem_dictSet File.id).mpr (Or.inr ⟨ha, fun e => gi.disjoint a ha f hfd e⟩)
+
+/-- The root folder cannot be deleted. -/
+theorem C15_root_undeletable (s : State) : step s (.deleteFolder "root") = (s, .failure) := by
+  simp only [step, deleteFolder]
+  cases getFolder s "root" <;> simp
+
+/-- `delete/folder` on a live folder other than root: answered `success`; afterwards no live folder has that uuid, and the
+folder (same uuid) is in `deleted_folders`, flagged, with no live files — every file it had is in its `deleted_files`,
+flagged. All other folders are untouched. -/
+theorem C15_delete_folder_moves {s : State} (h : Inv s) {g : Folder} (hg : g ∈ s.folders) (hr : g.name ≠ "root") :
+    (step s (.deleteFolder g.name)).2 = .success ∧
+    (∀ a ∈ (step s (.deleteFolder g.name)).1.folders, a.id ≠ g.id) ∧
+    (∀ a ∈ s.folders, a.id ≠ g.id → a ∈ (step s (.deleteFolder g.name)).1.folders) ∧
+    (∀ b ∈ s.deletedFolders, b ∈ (step s (.deleteFolder g.name)).1.deletedFolders) ∧
+    ∃ g' ∈ (step s (.deleteFolder g.name)).1.deletedFolders, g'.id = g.id ∧ g'.name = g.name ∧ g'.deleted = true ∧
+      g'.files = [] ∧ (∀ b ∈ g'.deletedFiles, b.deleted = true) ∧
+      ∀ f, f ∈ g.files ∨ f ∈ g.deletedFiles → ∃ f' ∈ g'.deletedFiles, f'.id = f.id := by
+  have gi := (h.folder g (Or.inl hg)).1
+  have hgf := getFolder_of_live h hg
+  simp only [step, deleteFolder, hgf, hr, if_false]
+  refine ⟨trivial, ?_, ?_, ?_, ?_⟩
+  · intro a ha; exact ((mem_dictPop Folder.id).mp ha).2
+  · intro a ha hne; exact (mem_dictPop Folder.id).mpr ⟨ha, hne⟩
+  · intro b hb
+    exact (mem_dictSet Folder.id).mpr (Or.inr ⟨hb, fun e => h.disjoint g hg b hb e.symm⟩)
+  · refine ⟨_, (mem_dictSet Folder.id).mpr (Or.inl rfl), rfl, rfl, rfl, rfl, ?_, ?_⟩
+    · exact (folderInv_removeAllFiles (gi.congr (g' := { g with deleted := true }) rfl rfl rfl)).delFlag
+    · -- ids are kept by the accumulation
+      have key : ∀ (fs d : List File) (i : Nat), (∃ y ∈ d, y.id = i) ∨ (∃ y ∈ fs, y.id = i) →
+          ∃ y ∈ fs.foldl (fun d f => dictSet File.id d f.delete) d, y.id = i := by
+        intro fs
+        induction fs with
+        | nil =>
+          intro d i hi
+          rcases hi with hi | ⟨y, hy, _⟩
+          · exact hi
+          · cases hy
+        | cons c t ih =>
+          intro d i hi
+          simp only [List.foldl_cons]
+          apply ih
+          rcases hi with ⟨y, hy, hyi⟩ | ⟨y, hy, hyi⟩
+          · by_cases hk : y.id = c.id
+            · exact Or.inl ⟨c.delete, (mem_dictSet File.id).mpr (Or.inl rfl), by rw [← hyi, hk]; rfl⟩
+            · exact Or.inl ⟨y, (mem_dictSet File.id).mpr (Or.inr ⟨hy, hk⟩), hyi⟩
+          · rcases List.mem_cons.mp hy with rfl | hy
+            · exact Or.inl ⟨y.delete, (mem_dictSet File.id).mpr (Or.inl rfl), hyi⟩
+            · exact Or.inr ⟨y, hy, hyi⟩
+      intro f hf
+      unfold Folder.removeAllFiles
+      simp only
+      rcases hf with hf | hf
+      · exact key g.files g.deletedFiles f.id (Or.inr ⟨f, hf, rfl⟩)
+      · exact key g.files g.deletedFiles f.id (Or.inl ⟨f, hf, rfl⟩)
+
+/-- `restore/folder` on a name with no live folder but a deleted one: answered `success`; afterwards that folder (the
+oldest deleted one of that name, same uuid) is live with its flag cleared and its restore countdown running, and no
+longer in `deleted_folders`; its files stay deleted until the countdown completes. -/
+theorem C15_restore_folder_moves {s : State} (h : Inv s) {g : Folder} {F : Name} (hno : ∀ a ∈ s.folders, a.name ≠ F)
+    (hgf : getFolder s F true = some g) :
+    g ∈ s.deletedFolders ∧ (step s (.restoreFolder F)).2 = .success ∧
+    g.restore ∈ (step s (.restoreFolder F)).1.folders ∧ g.restore.deleted = false ∧ g.restore.id = g.id ∧
+    g.restore.files = g.files ∧ g.restore.deletedFiles = g.deletedFiles ∧
+    (∀ b ∈ (step s (.restoreFolder F)).1.deletedFolders, b.id ≠ g.id) ∧
+    (∀ a ∈ s.folders, a ∈ (step s (.restoreFolder F)).1.folders) := by
+  obtain ⟨hgn, hcase⟩ := getFolder_incl hgf
+  have hgd : g ∈ s.deletedFolders := by
+    rcases hcase with hl | ⟨hd, _⟩
+    · exact absurd hgn (hno g hl)
+    · exact hd
+  simp only [step, restoreFolder, hgf]
+  refine ⟨hgd, trivial, (mem_dictSet Folder.id).mpr (Or.inl rfl), rfl, rfl, rfl, rfl, ?_, ?_⟩
+  · intro b hb; exact ((mem_dictPop Folder.id).mp hb).2
+  · intro a ha
+    exact (mem_dictSet Folder.id).mpr (Or.inr ⟨ha, fun e => h.disjoint a ha g hgd e⟩)
+
+/-! ### never neither: no item is ever lost -/
+
+/-- Every folder uuid present before an operation is present afterwards (live or deleted), and that folder still holds
+every file uuid it held (live or deleted): together with `C15_partition`, every item ever created is at every later
+moment in exactly one of the two sets of its owner. -/
+theorem C15_no_item_lost {s : State} (h : Inv s) (op : Op) : Keeps s (step s op).1 := keeps_step h op
+
+theorem C15_no_item_lost_run {s : State} (h : Inv s) (ops : List Op) : Keeps s (run s ops).1 := by
+  induction ops generalizing s with
+  | nil => exact Keeps.refl s
+  | cons op ops ih => simp only [run]; exact (keeps_step h op).trans (ih (C15_inv_step h op))
+
+/-- From any reachable state onwards, along any continuation. -/
+theorem C15_no_item_lost_reachable (d : Option Int) (ops1 ops2 : List Op) :
+    Keeps (run (init d) ops1).1 (run (run (init d) ops1).1 ops2).1 :=
+  C15_no_item_lost_run (C15_inv_reachable d ops1) ops2
 
 /-! ### translator tie: the tables regenerated from the source agree with what the model assumes -/
 
